@@ -34,6 +34,7 @@ class CrashPlan(Monitor):
         self.crashed = False
         self.inflight = []          # root-relative paths the engine wrote in the step that died
         self.later_user = []        # root-relative paths users touched after the crash
+        self.after_crash_user = []
         self.torn = False
         S.hook_storage_commit()
 
@@ -49,6 +50,16 @@ class CrashPlan(Monitor):
     def after_user(self, sim, rec):
         if rec.get("ok"):
             self.later_user.append([rec["path"]] + ([rec["to"]] if rec.get("to") else []))
+            if self.crashed:
+                self.after_crash_user.append([rec["path"]] + ([rec["to"]] if rec.get("to") else []))
+
+    def k16_after(self):
+        """the narrower half of K16's predicate: a user operation on the in-flight object *after* the crash"""
+        for p in self.inflight:
+            for paths in self.after_crash_user:
+                if any(p == q or p.startswith(q + "/") or q.startswith(p + "/") for q in paths):
+                    return True
+        return False
 
     def at_quiescence(self, sim, final):
         # (the runner also calls this when the engine died inside the quiescence loop, before at_crash: not a quiet point)
@@ -143,6 +154,7 @@ def run(case, acc=None, count=True, kind=None, k=None):
         holder["w"] = sim.storage.writes - monitors[2].w0
         holder["p"] = sim.world.engine_writes - monitors[2].p0
         holder["k16"] = monitors[2].k16()
+        holder["k16_after"] = monitors[2].k16_after()
         holder["k17"] = monitors[2].k17()
         return evaluate(case_, obs, sim, monitors)
     probs = E.run_one(case, acc, ev, monitors_factory=fac, sim_kwargs={"storage": storage}, count=False,
@@ -184,6 +196,8 @@ def enumerate_case(case, acc):
                 c["crash"] = [kind, k]
                 if hh.get("k16"):
                     acc.count("failures_attributed_K16")
+                    acc.count("k16_failures_with_a_user_op_after_the_crash" if hh.get("k16_after") else
+                              "k16_failures_with_all_user_ops_before_the_crash")
                     acc.known_hit("K16", {"case": W.brief_case(case), "crash": [kind, k], "problem": str(probs[0])[:300]})
                 elif hh.get("k17"):
                     acc.count("failures_attributed_K17")
@@ -192,6 +206,8 @@ def enumerate_case(case, acc):
                     acc.violation(probs[0][0], probs[:3] + [("crash", kind, k, hh.get("crashes"))], c)
             elif hh.get("k16"):
                 acc.count("k16_predicate_true_but_run_passed")
+                acc.count("k16_passed_with_a_user_op_after_the_crash" if hh.get("k16_after") else
+                          "k16_passed_with_all_user_ops_before_the_crash")
             elif hh.get("k17"):
                 acc.count("k17_predicate_true_but_run_passed")
 
